@@ -21,7 +21,7 @@ from ..anf import Rat, sym
 from ..guards import (G, TRUE, FALSE, g_and, g_not, g_or, g_equiv, g_implies, g_sat, compare, canon_sign, OPS)
 from ..gvn import Frame, Obj, PW, Vec, cases_of, veq, mk_pw, Unsupported
 from ..model import keep
-from .common import RuleCtx, _short
+from .common import RuleCtx, _short, stored_names
 
 C = Rat.const
 
@@ -53,20 +53,55 @@ def run(ctx):
         raise AnalysisError("zmethod.getPoints: expected one main while loop")
     main = loops[0]
     k = fi.node.body.index(main)
-    # the prologue up to (not including) the statement that re-binds `points`
+    # the prologue up to (not including) the statement that builds the (x, y, z-score) working array
     pro = []
+    arr_name = None
     for st in fi.node.body[:k]:
-        if isinstance(st, ast.Assign) and any(isinstance(t, ast.Name) and t.id == "points" for t in st.targets):
+        if isinstance(st, ast.Assign) and isinstance(st.value, ast.Call) and ast.unparse(st.value.func) in ("np.column_stack", "numpy.column_stack") \
+                and len(st.targets) == 1 and isinstance(st.targets[0], ast.Name):
+            arr_name = st.targets[0].id
             break
         pro.append(st)
-    # exclusion sites: points = points[<mask>] inside the main loop
+    if arr_name is None:
+        raise AnalysisError("zmethod.getPoints: the working array np.column_stack((points, z-scores)) was not found")
+    # exclusion sites: the working array re-bound to a filtered version of itself inside the main loop
     sites = []
     for st in ast.walk(main):
-        if isinstance(st, ast.Assign) and len(st.targets) == 1 and isinstance(st.targets[0], ast.Name) and st.targets[0].id == "points" \
-                and isinstance(st.value, ast.Subscript) and isinstance(st.value.value, ast.Name) and st.value.value.id == "points":
+        if isinstance(st, ast.Assign) and len(st.targets) == 1 and isinstance(st.targets[0], ast.Name) and st.targets[0].id == arr_name \
+                and any(isinstance(n, ast.Name) and n.id == arr_name for n in ast.walk(st.value)):
             sites.append(st)
-    if len(sites) < 2:
-        res.error(f"Z1: expected 2 exclusion sites in getPoints, found {len(sites)}")
+    # selection sites: the collection of selected knees re-bound to np.append(<itself>, ...) inside the main loop
+    blocks = {}
+    for n in ast.walk(main):
+        for fld in ("body", "orelse", "finalbody"):
+            blk = getattr(n, fld, None)
+            if isinstance(blk, list):
+                for b in blk:
+                    blocks[id(b)] = (n, blk)
+    selections = [b for b in ast.walk(main) if isinstance(b, ast.Assign) and isinstance(b.targets[0], ast.Name) and isinstance(b.value, ast.Call)
+                  and ast.unparse(b.value.func) in ("np.append", "numpy.append", "np.vstack", "numpy.vstack", "np.concatenate", "numpy.concatenate")
+                  and any(isinstance(n, ast.Name) and n.id == b.targets[0].id for n in ast.walk(b.value))]
+    # ... of the loop-carried collection that is read after the loop (a per-iteration scratch collection, re-created inside
+    # the loop, is not the selection)
+    def _carried(name):
+        for n in ast.walk(main):
+            if isinstance(n, ast.Assign) and any(isinstance(t, ast.Name) and t.id == name for t in n.targets) \
+                    and not any(isinstance(x, ast.Name) and x.id == name for x in ast.walk(n.value)):
+                return False
+        return any(isinstance(x, ast.Name) and x.id == name and isinstance(x.ctx, ast.Load) for st_ in fi.node.body[k + 1:] for x in ast.walk(st_))
+    selections = [b for b in selections if _carried(b.targets[0].id)]
+    if not selections:
+        raise AnalysisError("zmethod.getPoints: no statement adds a point to the selection inside the main loop - shape not recognised")
+    if not sites:
+        raise AnalysisError("zmethod.getPoints: no statement filters the working array inside the main loop - shape not recognised")
+    for b in selections:
+        owner, blk = blocks[id(b)]
+        if not any(x in sites for x in blk):
+            res.violation("Z1", mod, fi.name, b, "a knee is selected but the points near it are not removed from the working array in the same step: "
+                          "a later knee can be selected inside its (W, H) neighbourhood", ast.unparse(b)[:120],
+                          f"{arr_name} = {arr_name}[outside the x band & outside the y band] next to every selection", construct="selection without exclusion")
+    res.analysed["selection_sites"] = len(selections)
+    res.analysed["exclusion_sites"] = len(sites)
     p3 = Vec([ev.symbol("p.x", True), ev.symbol("p.y", True), ev.symbol("p.z", True)], "point")
     best = Vec([ev.symbol("b.x"), ev.symbol("b.y"), ev.symbol("b.z")], "point")
     x, y, bx, by = p3.items[0], p3.items[1], best.items[0], best.items[1]
@@ -89,12 +124,11 @@ def run(ctx):
         ref_y = g_or(compare("<=", y, by - want_H), compare(">=", y, by + want_H))
         ref = g_and(ref_x, ref_y)
         for n_site, st in enumerate(sites, 1):
-            idx = st.value.slice
-            mask = idx.args[0] if isinstance(idx, ast.Call) and ast.unparse(idx.func) in ("np.where", "numpy.where") and len(idx.args) == 1 else idx
-            names = {n.id for n in ast.walk(mask) if isinstance(n, ast.Name)}
-            unknown = sorted(n for n in names if n not in env and n not in ("np", "numpy"))
+            names = {n.id for n in ast.walk(st.value) if isinstance(n, ast.Name)}
+            helper_names = {c.func.id for c in ast.walk(st.value) if isinstance(c, ast.Call) and isinstance(c.func, ast.Name)}
+            unknown = sorted(n for n in names if n not in env and n not in ("np", "numpy", arr_name) and n not in helper_names)
             if len(unknown) != 1:
-                raise AnalysisError(f"zmethod.getPoints: exclusion mask uses {unknown}; expected exactly one name for the selected point")
+                raise AnalysisError(f"zmethod.getPoints: exclusion site uses {unknown}; expected exactly one name for the selected point")
             menv = {}
             for nme in names:
                 if nme in env:
@@ -104,15 +138,26 @@ def run(ctx):
                         picks = [c for g_, c in v.cases if (label == "overrides") == ("truthy" in repr(g_) and g_.kind != "not")]
                         v = picks[0] if picks else v.cases[0][1]
                     menv[nme] = v
-            menv["points"] = p3
+            menv[arr_name] = p3
             menv[unknown[0]] = best
             try:
-                g = _eval(rc, fi, mask, menv)
+                val = _eval(rc, fi, st.value, menv)
             except Unsupported as e:
-                raise AnalysisError(f"zmethod.getPoints: exclusion mask not modelled: {e}")
+                raise AnalysisError(f"zmethod.getPoints: exclusion site not modelled: {e}")
+            # the filtered array: every column is mask(<column>, <boolean>) with one common boolean
+            g = None
+            if isinstance(val, Vec) and val.items and all(isinstance(c, Rat) for c in val.items):
+                keys = set()
+                for c, col in zip(val.items, p3.items):
+                    a_ = c.atoms()
+                    if len(a_) == 1 and a_[0].kind == "fn" and a_[0].name == "mask" and a_[0].args[0].equals(col) and c.equals(Rat.from_atom(a_[0])):
+                        b_ = a_[0].args[1].atoms()
+                        if len(b_) == 1 and b_[0].name == "bool":
+                            keys.add(b_[0].extra)
+                if len(keys) == 1:
+                    g = ev.bool_registry.get(next(iter(keys)))
             if not isinstance(g, G):
-                res.violation("Z1", mod, fi.name, st, "the points kept after a selection are not chosen by a boolean band mask", _short(g), str(ref), construct="exclusion mask form")
-                continue
+                raise AnalysisError("zmethod.getPoints: an exclusion site does not filter the working array with one boolean mask - shape not recognised")
             if g_implies(g, ref):
                 res.ok("Z1", f"zmethod.getPoints:site{n_site}[{label}]",
                        f"kept points lie outside the x band (W = max(1, int({xmax_v}*dx))) and the y band (H = ({_short(ymax_v, 24)} - {_short(ymin_v, 24)})*dy) of the selected point")
@@ -140,47 +185,57 @@ def run(ctx):
     # ---- Z2: selection guard ------------------------------------------------------------
     sel_ok = 0
     n_sel = 0
-    Hv = ev.symbol("H")
+    fr = Frame(ev, fi, 0)
+    env = {"points": pts, "dx": dx, "dy": dy, "dz": dz, "plot": FALSE, "x_max": Obj("none"), "y_range": Obj("none")}
+    fr.block(pro, env, TRUE)
+    H0 = (anf.opaque("amax", pts.items[1], array=False) - anf.opaque("amin", pts.items[1], array=False)) * dy
     for st in ast.walk(main):
-        if not (isinstance(st, ast.If) and any(b in sites for b in st.body)):
+        if not (isinstance(st, ast.If) and any(b in selections for b in st.body)):
             continue
         n_sel += 1
-        # the collection of selected points: the name that receives np.append(<itself>, [[best[0], best[1]]]) in this body
+        # the collection of selected points: the name that receives np.append(<itself>, ...) in this body
         sel_names = [b.targets[0].id for b in st.body if isinstance(b, ast.Assign) and isinstance(b.targets[0], ast.Name) and isinstance(b.value, ast.Call)
                      and ast.unparse(b.value.func) in ("np.append", "numpy.append") and b.value.args and isinstance(b.value.args[0], ast.Name)
                      and b.value.args[0].id == b.targets[0].id]
-        t = st.test
+        names = {n.id for n in ast.walk(st.test) if isinstance(n, ast.Name)}
+        helper_names = {c.func.id for c in ast.walk(st.test) if isinstance(c, ast.Call) and isinstance(c.func, ast.Name)}
+        others = sorted(n for n in names if n not in env and n not in helper_names and n not in sel_names and n not in ("np", "numpy", "abs", "all"))
         good = False
-        if len(sel_names) == 1 and isinstance(t, ast.Call) and isinstance(t.func, ast.Name) and t.func.id == "all" and len(t.args) == 1 and isinstance(t.args[0], ast.GeneratorExp):
-            gen = t.args[0]
-            if len(gen.generators) == 1 and isinstance(gen.generators[0].target, ast.Name) and not gen.generators[0].ifs \
-                    and ast.unparse(gen.generators[0].iter).replace(" ", "") == f"{sel_names[0]}[:,1]":
-                iv = gen.generators[0].target.id
-                yi = ev.symbol("y_sel")
-                names = {n.id for n in ast.walk(gen.elt) if isinstance(n, ast.Name)} - {iv, "abs"}
-                # the selected point and the height: the height is the prologue scalar, the point the other name
-                fr = Frame(ev, fi, 0)
-                env = {"points": pts, "dx": dx, "dy": dy, "dz": dz, "plot": FALSE, "x_max": Obj("none"), "y_range": Obj("none")}
-                fr.block(pro, env, TRUE)
-                others = sorted(n for n in names if n not in env)
-                if len(others) == 1:
-                    genv = {n: env[n] for n in names if n in env}
-                    genv[others[0]] = best
-                    genv[iv] = yi
-                    g = _eval(rc, fi, gen.elt, genv)
-                    H0 = (anf.opaque("amax", pts.items[1], array=False) - anf.opaque("amin", pts.items[1], array=False)) * dy
-                    want_a = canon_sign(anf.f_abs(by - yi) - H0, OPS[">="])
-                    want_b = canon_sign(anf.f_abs(by - yi) - H0, OPS[">"])
-                    if isinstance(g, G) and (g_equiv(g, want_a) or g_equiv(g, want_b)):
-                        good = True
+        why = "the guard is not all(|best.y - y_i| >= H for the selected y_i)"
+        if len(sel_names) == 1 and len(others) <= 2:
+            sel = Vec([ev.symbol("sel.x", True), ev.symbol("sel.y", True)], "point")
+            genv = {n: env[n] for n in names if n in env}
+            genv[sel_names[0]] = sel
+            # the selected candidate: the remaining unknown name(s) (the comprehension variable is bound by the evaluator)
+            comp_vars = {g_.target.id for c in ast.walk(st.test) if isinstance(c, (ast.GeneratorExp, ast.ListComp)) for g_ in c.generators if isinstance(g_.target, ast.Name)}
+            cand_names = [n for n in others if n not in comp_vars]
+            if len(cand_names) == 1:
+                genv[cand_names[0]] = best
+                try:
+                    g = fr.truth(_eval(rc, fi, st.test, genv))
+                except Unsupported as e:
+                    raise AnalysisError(f"zmethod.getPoints: selection guard not modelled: {e}")
+                items = g.a if g.kind == "and" else (g,)
+                for x_ in items:
+                    if x_.kind == "atom" and isinstance(x_.a, tuple) and x_.a and x_.a[0] == "quantified":
+                        kind_, itv, elem, cond = ev.comp_registry[x_.a[1]]
+                        want_a = canon_sign(anf.f_abs(by - elem) - H0, OPS[">="])
+                        want_b = canon_sign(anf.f_abs(by - elem) - H0, OPS[">"])
+                        if kind_ == "all" and isinstance(itv, Rat) and itv.equals(sel.items[1]) and (g_equiv(cond, want_a) or g_equiv(cond, want_b)):
+                            good = True
+                        elif kind_ == "all" and not (isinstance(itv, Rat) and itv.equals(sel.items[1])):
+                            why = "the guard does not range over the heights of the already selected points"
         if good:
             sel_ok += 1
             res.ok("Z2", f"zmethod.getPoints:select#{sel_ok}", "selected only if |by - y| >= H for every selected y")
         else:
-            res.violation("Z2", mod, fi.name, st, "a candidate can be selected although it is closer than H in y to an already selected knee",
-                          ast.unparse(t)[:160], "all(abs(best.y - y_i) >= H for y_i in <selected>[:, 1])", construct="selection guard")
-    if n_sel < 2:
-        res.error(f"Z2: expected 2 selection sites in getPoints, found {n_sel}")
+            res.violation("Z2", mod, fi.name, st, "a candidate can be selected although it is closer than H in y to an already selected knee: " + why,
+                          ast.unparse(st.test)[:160], "all(abs(best.y - y_i) >= H for y_i in <selected>[:, 1])", construct="selection guard")
+    for b in selections:
+        owner, blk = blocks[id(b)]
+        if not (isinstance(owner, ast.If) and blk is owner.body):
+            res.violation("Z2", mod, fi.name, b, "a candidate is added to the selection without the height test against the already selected knees",
+                          ast.unparse(b)[:120], "if all(abs(best.y - y_i) >= H for y_i in <selected>[:, 1]): <select>", construct="unguarded selection")
     # ---- Z3: final sweep --------------------------------------------------------------------
     post = fi.node.body[k + 1:]
     sweeps = [st for st in post if isinstance(st, ast.For)]
@@ -188,49 +243,60 @@ def run(ctx):
         res.error("Z3: final sweep loop not found")
     else:
         sw = sweeps[0]
-        ok = False
-        keys_ok = False
-        if len(sw.body) == 1 and isinstance(sw.body[0], ast.If) and isinstance(sw.target, ast.Name):
-            br = sw.body[0]
-            dels_b = [b for b in br.body if isinstance(b, ast.Delete)]
-            dels_e = [b for b in br.orelse if isinstance(b, ast.Delete)]
-            del_branch, keep_branch, positive = (br.body, br.orelse, True) if dels_b else (br.orelse, br.body, False)
-            dels = dels_b or dels_e
-            if len(dels) == 1 and len(del_branch) == 1 and isinstance(dels[0].targets[0], ast.Subscript) and isinstance(dels[0].targets[0].value, ast.Name):
-                dname = dels[0].targets[0].value.id
-                kname = sw.target.id
-                upd = [b for b in keep_branch if isinstance(b, ast.Assign) and isinstance(b.targets[0], ast.Name)
-                       and ast.unparse(b.value).replace(" ", "") == f"{dname}[{kname}]"]
-                if len(upd) == 1 and len(keep_branch) == 1:
-                    mname = upd[0].targets[0].id
-                    # keys ascending: the iterated name is sorted(<dict>.keys())
-                    for st in post:
-                        if isinstance(st, ast.Assign) and isinstance(st.targets[0], ast.Name) and isinstance(sw.iter, ast.Name) and st.targets[0].id == sw.iter.id:
-                            txt = ast.unparse(st.value).replace(" ", "")
-                            if f"sorted({dname}.keys())" in txt and "reverse" not in txt:
-                                keys_ok = True
-                    import copy
-
-                    class Sub(ast.NodeTransformer):
-                        def visit_Subscript(self, node):
-                            if isinstance(node.value, ast.Name) and node.value.id == dname:
-                                return ast.copy_location(ast.Name(id="__h", ctx=ast.Load()), node)
-                            return self.generic_visit(node)
-                    test = keep(Sub().visit(copy.deepcopy(br.test)))
-                    ast.fix_missing_locations(test)
-                    for n in ast.walk(test):
-                        mod.node_scope[id(n)] = fi.scope
-                    kv, mn = ev.symbol("h"), ev.symbol("min!")
-                    g = _eval(rc, fi, test, {"__h": kv, mname: mn})
-                    if isinstance(g, G):
-                        gd = g if positive else g_not(g)
-                        if g_equiv(gd, canon_sign(kv - mn, OPS[">"])) or g_equiv(gd, canon_sign(kv - mn, OPS[">="])):
-                            ok = True
-        if ok and keys_ok:
+        ks = post.index(sw)
+        ev3 = rc.new_eval()
+        rc.ev = ev3
+        D = ev3.symbol("D!")
+        # statements between the selection loop and the sweep (dictionary construction, initial minimum)
+        fr_s = Frame(ev3, fi, 0)
+        senv = {}
+        try:
+            fr_s.block(post[:ks], senv, TRUE)
+        except Unsupported as e:
+            raise AnalysisError(f"zmethod.getPoints: code before the final sweep not modelled: {e}")
+        if not isinstance(sw.target, ast.Name):
+            raise AnalysisError("zmethod.getPoints: sweep target is not a single name")
+        kname = sw.target.id
+        # the dictionary: the container deleted from inside the sweep
+        dels_ast = [n for b_ in sw.body for n in ast.walk(b_) if isinstance(n, ast.Delete)]
+        dnames = {t.value.id for n in dels_ast for t in n.targets if isinstance(t, ast.Subscript) and isinstance(t.value, ast.Name)}
+        if len(dnames) != 1:
+            raise AnalysisError("zmethod.getPoints: the sweep does not delete from exactly one container")
+        dname = next(iter(dnames))
+        carried = [n for n in stored_names(sw) if n in senv and n != dname]
+        if len(carried) != 1:
+            raise AnalysisError(f"zmethod.getPoints: expected one running minimum carried by the sweep, found {carried}")
+        mname = carried[0]
+        kv = ev3.symbol(kname)
+        mn = ev3.symbol("min!")
+        benv = dict(senv)
+        benv.update({dname: D, kname: kv, mname: mn})
+        out = ev3.eval_loop_body(fi, sw, benv)
+        h = anf.opaque("item", D, kv)
+        dels = [e for e in out.events if e.kind == "del" and e.target == dname]
+        g_del = g_or(*[e.guard for e in dels]) if dels else FALSE
+        idx_ok = all(isinstance(e.args[0], Rat) and e.args[0].equals(kv) for e in dels)
+        want_a, want_b = canon_sign(h - mn, OPS[">"]), canon_sign(h - mn, OPS[">="])
+        new_min = out.env.get(mname)
+        upd_ok = True
+        for g_, v_ in cases_of(new_min):
+            for cond, want in ((g_del, mn), (g_not(g_del), h)):
+                if g_sat(g_and(g_, cond)) and not (isinstance(v_, Rat) and v_.equals(want)):
+                    upd_ok = False
+        # ascending keys
+        it_expr = sw.iter
+        if isinstance(it_expr, ast.Name):
+            for st in post[:ks]:
+                if isinstance(st, ast.Assign) and isinstance(st.targets[0], ast.Name) and st.targets[0].id == it_expr.id:
+                    it_expr = st.value
+        txt = ast.unparse(it_expr).replace(" ", "")
+        keys_ok = (f"sorted({dname}.keys())" in txt or f"sorted({dname})" in txt) and "reverse" not in txt and "[::-1]" not in txt
+        if dels and idx_ok and (g_equiv(g_del, want_a) or g_equiv(g_del, want_b)) and upd_ok and keys_ok and not out.breaks and not out.returns:
             res.ok("Z3", "zmethod.getPoints:sweep", "ascending x; delete iff height > running minimum; minimum <- height on keep => heights non-increasing")
         else:
-            res.violation("Z3", mod, fi.name, sw, "the final sweep does not delete exactly the knees that are higher than a knee to their left (ascending x, running minimum updated on keep)",
-                          ast.unparse(sw)[:200], "for k in sorted(keys): if h[k] > min: del h[k] else: min = h[k]", construct="final sweep")
+            res.violation("Z3", mod, fi.name, sw, "the final sweep does not delete exactly the knees that are higher than a knee to their left (ascending x, running minimum updated exactly on keep)",
+                          f"delete iff {g_del}; minimum' = {_short(new_min, 120)}; order {ast.unparse(it_expr)[:60]}",
+                          "for k in sorted(keys): if h[k] > min: del h[k] else: min = h[k]", construct="final sweep")
     # ---- Z5 ------------------------------------------------------------------------------------
     fm = rc.func("zmethod.map_index")
     ev2 = rc.new_eval()
@@ -267,4 +333,4 @@ def run(ctx):
     res.assumptions += ["strictly increasing non-negative integer x, y in [0, 1], dx, dy, dz > 0", "W, H >= 0"]
     res.not_decided += ["termination and the iteration bound of the selection loop (needs: points_added > 0 => len(points) decreases - a fact about numpy masks on runtime data)",
                         "x-separation among same-round candidates", "validity for non-integer x"]
-    res.require_instances("C10 obligations", len(res.obligations), 12)
+    res.require_instances("C10 obligations", len(res.obligations), 8)
